@@ -82,6 +82,17 @@ SamePicture(a, b, cmp) ==
           /\ (a.cbits[1] > 0 /\ a.cbits[1] = b.cbits[1]) =>
                  (IF cmp = 0 THEN a.px[i][1] = b.px[i][1] ELSE Abs(a.px[i][1] - b.px[i][1]) <= 1)
 
+(* Dispatch events of programs that were not written for this check (the repository's tests traced through  *)
+(* the file sink): no Req precedes them; only obligation (i) is judged.                                    *)
+TDispatchBare ==
+    /\ Is("Dispatch") /\ cur = <<>>
+    /\ LET sfl == SetOf(Ev.sfl)  mfl == SetOf(Ev.mfl)  dfl == SetOf(Ev.dfl)
+           cell == <<IS_OPAQUE \in sfl /\ IS_OPAQUE \in mfl, IS_OPAQUE \in dfl>>
+       IN  (ValidReduction(Ev.op_in, Ev.op_out, cell, valid)) = TRUE
+    /\ UNCHANGED <<valid, cur, first>> /\ Adv
+
+TSkip == /\ (Is("Tables") \/ Is("Lookup")) /\ UNCHANGED <<valid, cur, first>> /\ Adv
+
 TRes ==
     /\ Is("Res")
     /\ IF Ev.variant = 0
@@ -92,6 +103,6 @@ TRes ==
     /\ UNCHANGED <<valid, cur>> /\ Adv
 
 TInit == l = 1 /\ valid = {} /\ cur = <<>> /\ first = <<>>
-TNext == TReset \/ TValid \/ TReq \/ TDispatch \/ TRes
+TNext == TReset \/ TValid \/ TReq \/ TDispatch \/ TDispatchBare \/ TSkip \/ TRes
 TSpec == TInit /\ [][TNext]_tvars
 =============================================================================
